@@ -186,6 +186,7 @@ pub fn scenarios(thorough: bool) -> Vec<Scenario> {
         sc.prologue = vec![Op::Upd(0, 0), Op::Commit(0, 0), Op::Upd(0, 1), Op::Commit(0, 1), Op::Upd(0, 2), Op::Commit(0, 0)];
         v.push(sc);
     }
+    v.extend(cross_scenarios(thorough));
     v
 }
 
